@@ -30,6 +30,18 @@ def _load_variants():
             p = os.path.join(nd, d, 'patch.diff')
             if os.path.exists(p):
                 out.append(dict(id='neutral-' + d, props=sorted(PROPS), patch=p, expect=[]))
+    # behaviour-breaking changes written by independent sub-agents (seeded/<id>/patch.diff):
+    # those that the check of their property reported when seeded/EXPECT.json was generated
+    # must still be reported by (at least one of) the same rules
+    base = os.path.dirname(os.path.dirname(os.path.abspath(__file__)))
+    ex = os.path.join(base, 'seeded', 'EXPECT.json')
+    if os.path.exists(ex):
+        import json
+        for sid, rules in sorted(json.load(open(ex)).items()):
+            p = os.path.join(base, 'seeded', sid, 'patch.diff')
+            own = sid.split('-')[0]
+            if os.path.exists(p) and rules and own in PROPS:
+                out.append(dict(id='seed-' + sid, props=[own], patch=p, expect=sorted(rules), any=True))
     return out
 
 
@@ -165,6 +177,9 @@ def run(prop, seed, verbose=False, only=None):
         exp = set(v['expect'])
         if errs:
             fails.append('%s: %s' % (vid, errs))
+        elif exp and v.get('any') and (exp & fired):
+            if verbose:
+                print('  ok       %s -> %s' % (vid, sorted(fired)))
         elif exp and not (exp <= fired):
             fails.append('%s: expected %s to fire, got %s' % (vid, sorted(exp), sorted(fired)))
         elif not exp and fired:
